@@ -259,10 +259,41 @@ def main(argv=None):
 
 
 def replay(pid, path):
-    from .common import VmRun, normalize_receipts
+    """re-run a recorded counterexample against builds of the *current* tree on the real fuel-vm"""
+    from .common import VmRun, normalize_receipts, build_package
     obj = json.load(open(path))
-    print(json.dumps(obj, indent=1)[:3000])
-    return 0
+    print(json.dumps(obj, indent=1, default=str)[:2500])
+    v = obj.get('violation')
+    if not v or 'input' not in v:
+        return 0
+    tier, seed = obj.get('tier', 'quick'), int(obj.get('seed', 0))
+    cfg = config(pid, tier, seed)
+    rules = asm_rules() if cfg.get('asm') or pid in ('C01', 'C02') else None
+    corpus = C.build_corpus(tier, seed, asm_rules=rules, families=cfg['families'])
+    pkg = next((p for p in corpus if p.name == obj['pkg']), None)
+    if pkg is None:
+        print('replay: package not in the current corpus')
+        return 2
+    names = v.get('variants') or [v.get('variant')]
+    vm = VmRun()
+    outs = {}
+    for vn in names:
+        prof, env = cfg['variants'][vn]
+        b = build_package(pkg.name, pkg.source(), prof, env)
+        if not b.ok:
+            print(f'replay: build of {vn} fails: {b.log[-400:]}')
+            outs[vn] = None
+            continue
+        outs[vn] = E.observable(normalize_receipts(vm.run(b.bytecode, bytes.fromhex(v['input']))))
+        print(f'replay: {vn}: {outs[vn]}')
+    if len(names) == 2:
+        still = outs[names[0]] != outs[names[1]]
+    else:
+        exp = v.get('expected', {})
+        o = outs[names[0]]
+        still = o is not None and ((o[0] != exp.get('revert')) or (not o[0] and [list(l[2]) for l in o[3] if l[0] == 'logd'] != [exp.get('log_data')]))
+    print('replay: violation ' + ('REPRODUCES on the current tree' if still else 'does not reproduce on the current tree'))
+    return 1 if still else 0
 
 
 if __name__ == '__main__':
